@@ -128,6 +128,11 @@ def gen_case(rng, cfg, name, nops, bias=None):
     extra = bias.get("menu", {})
     names = [m for m, _ in menu]
     weights = [extra.get(m, w) for m, w in menu]
+    if rng.random() < 0.3:
+        # react-flavoured case: update() and react() are separate code paths in the library (R_::update / R_::react and
+        # the deepX / wideX families behind them); a third of the cases drives the machine mostly through react()
+        iu, ir = names.index("update"), names.index("react")
+        weights[iu], weights[ir] = weights[ir], weights[iu]
     for _ in range(nops):
         name_ = rng.choices(names, weights)[0]
         live = [i for i in exists if exists[i]]
@@ -577,6 +582,48 @@ def plan_veto_case(rng, cfg, name):
                 beh.append("beh i0 op%d occ0 %s s255 S : %s" % (k, m, rng.choice(["planAppend %d %d" % (x, rng.randrange(cfg.n)), "changeTo %d" % rng.randrange(cfg.n), "succeed %d" % x])))
     return lines + beh + ["op " + o for o in ops]
 
+
+
+def statusfirst_case(rng, cfg, name):
+    """C08/C09: task statuses reported in cycles *before* any task exists (and again after the plan was consumed or
+    cleared), from react() as often as from update(); tasks only appear afterwards.  Nothing may be delivered, fired or
+    remembered on the strength of a report that had no plan to refer to."""
+    lines = ["case %s" % name, cfg.cfg_line()]
+    ops = ["construct 0 %d %d" % (rng.randrange(2), rng.choice([0, 255, 165]))] + (["enter 0"] if cfg.manual else [])
+    beh = []
+    sids = list(range(min(cfg.n, 6))) + [255]
+
+    def cycle(report):
+        k = len(ops)
+        fam = PHASES_R if rng.random() < 0.55 else PHASES_U
+        ops.append("react 0" if fam is PHASES_R else "update 0")
+        if report:
+            m = rng.choice(fam)
+            what = rng.choice(["fail", "succeed", "fail", "succeed %d" % rng.randrange(cfg.n), "fail %d" % rng.randrange(cfg.n)])
+            extra = " ; changeTo %d" % rng.randrange(cfg.n) if rng.random() < 0.35 else ""
+            for sid in sids:
+                if rng.random() < 0.8:
+                    beh.append("beh i0 op%d occ0 %s s%d S : %s%s" % (k, m, sid, what, extra))
+
+    for _ in range(rng.randint(2, 4)):
+        for _ in range(rng.randint(1, 2)):
+            cycle(True)                                   # reports with no task around
+        if rng.random() < 0.3:
+            ops.append("changeTo 0 %d" % rng.randrange(cfg.n))
+        for _ in range(rng.randint(1, 2)):                # tasks appear afterwards
+            o, d = rng.randrange(cfg.n), rng.randrange(cfg.n)
+            if cfg.payload != "none" and rng.random() < 0.4:
+                ops.append("planAppend 0 %d %d %d" % (o, d, rng.randrange(200)))
+            else:
+                ops.append("planAppend 0 %d %d" % (o, d))
+        for _ in range(rng.randint(1, 3)):
+            cycle(rng.random() < 0.4)
+        r = rng.random()
+        if r < 0.3:
+            ops.append("planClear 0")
+        elif r < 0.45 and cfg.manual:
+            ops += ["exit 0", "enter 0"]
+    return lines + beh + ["op " + o for o in ops]
 
 def reactivation_case(rng, cfg, name):
     """C09/C17: a plan is used in one activation, the machine is deactivated (exit / destroy+construct / load) and
